@@ -52,6 +52,11 @@ def cargo_build(pkg="vh", features=None, variant="default", bins=None):
     cmd = ["cargo", "build", "--release", "--offline", "-p", pkg]
     if features:
         cmd += ["--features", features]
+    tdir = os.path.join(HARNESS, "target")
+    if variant != "default":
+        # a build with other features gets its own target directory (no rebuild ping-pong)
+        tdir = os.path.join(HARNESS, "target-" + variant)
+        cmd += ["--target-dir", tdir]
     t0 = time.time()
     logf = os.path.join(WORK, "cargo-%s-%s.log" % (pkg, variant))
     with open(logf, "w") as f:
@@ -61,7 +66,7 @@ def cargo_build(pkg="vh", features=None, variant="default", bins=None):
         raise ToolError("cargo build failed for %s (%s); see %s" % (pkg, variant, logf))
     outs = []
     for b in (bins or [pkg]):
-        src = os.path.join(HARNESS, "target", "release", b)
+        src = os.path.join(tdir, "release", b)
         dst = os.path.join(BIN, "%s-%s" % (b, variant))
         tmp = dst + ".tmp%d" % os.getpid()
         shutil.copy2(src, tmp)
